@@ -17,6 +17,7 @@ type Exit struct {
 	results []Term
 	st      *State
 	ret     *ssa.Return
+	nline   int // body lines written when the return was reached
 }
 
 func isBackEdge(from, to *ssa.BasicBlock) bool { return to.Dominates(from) }
@@ -822,16 +823,18 @@ func (fr *Frame) instr(b *ssa.BasicBlock, in ssa.Instruction, st *State) *Exit {
 		c := fr.val(x.Cond).S
 		fr.edges[edgeKey{b, 0}] = &edgeInfo{cond: fe.define(fe.fresh(fr.prefix+fmt.Sprintf("e_b%d_0", b.Index)), SBool, sAnd(st.alive, c)), st: st.clone()}
 		fr.edges[edgeKey{b, 1}] = &edgeInfo{cond: fe.define(fe.fresh(fr.prefix+fmt.Sprintf("e_b%d_1", b.Index)), SBool, sAnd(st.alive, sNot(c))), st: st.clone()}
+		fr.edges[edgeKey{b, 0}].nline = len(fe.pre.body)
+		fr.edges[edgeKey{b, 1}].nline = len(fe.pre.body)
 		fr.pendingBack = append(fr.pendingBack, b)
 	case *ssa.Jump:
-		fr.edges[edgeKey{b, 0}] = &edgeInfo{cond: st.alive, st: st.clone()}
+		fr.edges[edgeKey{b, 0}] = &edgeInfo{cond: st.alive, st: st.clone(), nline: len(fe.pre.body)}
 		fr.pendingBack = append(fr.pendingBack, b)
 	case *ssa.Return:
 		var rs []Term
 		for _, r := range x.Results {
 			rs = append(rs, fr.val(r))
 		}
-		return &Exit{cond: st.alive, results: rs, st: st.clone(), ret: x}
+		return &Exit{cond: st.alive, results: rs, st: st.clone(), ret: x, nline: len(fe.pre.body)}
 	case *ssa.SliceToArrayPointer, *ssa.MultiConvert:
 		fe.note("unsupported instruction %T in %s", in, relName(fr.fn))
 		if v, ok := in.(ssa.Value); ok {
@@ -904,7 +907,7 @@ func (fr *Frame) backEdges(b *ssa.BasicBlock, st *State) {
 			}
 			f, err := env.evalBool(inv.Expr)
 			fe.addOblig(&Oblig{Kind: "inv-keep", Props: inv.Props, Label: fmt.Sprintf("loop%d:%s", ord, inv.Label),
-				Reach: e.cond, Formula: f, Src: inv.Src, Pos: fr.pos(s.Instrs[0].Pos())}, err)
+				Reach: e.cond, Formula: f, Src: inv.Src, Pos: fr.pos(s.Instrs[0].Pos()), nline: e.nline}, err)
 		}
 	}
 }
